@@ -89,6 +89,7 @@ ANY_fromType(ANY_t *st, asn_TYPE_descriptor_t *td, void *sptr) {
 
 	if(!sptr) {
 		if(st->buf) FREEMEM(st->buf);
+		st->buf = 0;
 		st->size = 0;
 		return 0;
 	}
